@@ -542,13 +542,13 @@ func (c *Chain) Call(from *world.EthKey, to common.Address, data []byte) *TxReco
 	case "compass_update_batch":
 		con := decodeConsensus(args[0])
 		type arrT = []struct {
-			ContractAddress common.Address `json:"contract_address"`
-			Payload         []byte         `json:"payload"`
+			LogicContractAddress common.Address `json:"logic_contract_address"`
+			Payload              []byte         `json:"payload"`
 		}
 		arr := *abi.ConvertType(args[1], new(arrT)).(*arrT)
 		var calls []LogicCallArgs
 		for _, a := range arr {
-			calls = append(calls, LogicCallArgs{a.ContractAddress, a.Payload})
+			calls = append(calls, LogicCallArgs{a.LogicContractAddress, a.Payload})
 		}
 		deadline := args[2].(*big.Int)
 		gas := args[3].(*big.Int)
@@ -651,6 +651,13 @@ func (c *Chain) Call(from *world.EthKey, to common.Address, data []byte) *TxReco
 }
 
 // OtherTx creates an unrelated successful transaction (used by liars).
+// DeployOther sends a contract-creation transaction with arbitrary init code that succeeds (some contract, not a
+// compass the model knows): what a lying relayer can always produce.
+func (c *Chain) DeployOther(from *world.EthKey, data []byte) *TxRecord {
+	tx := c.mkTx(from, nil, data)
+	return c.record(tx, from.Addr, true, "deploy-other", "", crypto.CreateAddress(from.Addr, tx.Nonce()), 0)
+}
+
 func (c *Chain) OtherTx(from *world.EthKey, to common.Address, data []byte) *TxRecord {
 	tx := c.mkTx(from, &to, data)
 	return c.record(tx, from.Addr, true, "other", "", to, 0)
